@@ -391,6 +391,9 @@ def stack(arrays, axis=None, keys=None, align=False, **kwargs):
     dims = get_dims(*arrays)
     axis = _check_stack_axis(axis, dims)
 
+    # match dimensions by name, not by position
+    arrays = [a if a.dims == arrays[0].dims or set(a.dims) != set(arrays[0].dims) else a.transpose(arrays[0].dims) for a in arrays]
+
     # re-index axes if needed
     if align:
         kwargs['strict'] = True
